@@ -1,0 +1,20 @@
+//go:build verif
+// +build verif
+
+package mock
+
+// Machine-checked contracts for the mock transport (comment-only file).
+
+// Handler: a request over the limit is refused with the too-large error before the service sees
+// it; anything else is handed to the service unchanged (C13, C12).
+//@ func (*Handler).Handler
+//@   prop C13 C12
+//@   havoc
+//@   modifies ghost.*
+//@   requires h != nil && h.Service != nil
+//@   stable h.Service, h.Service.MaxRequestLength
+//@   atcall Handle [request_handed_on_unchanged] same(request, old(request))
+//@   ensures [too_large_is_refused_unprocessed] len(request) > h.Service.MaxRequestLength ==>
+//@       ghost.handled == old(ghost.handled) && err == core.ErrRequestEntityTooLarge && response == nil
+//@   ensures [within_limit_is_processed_once_unless_the_address_is_bad] ghost.handled <= old(ghost.handled) + 1
+//@   ensures [processed_request_is_the_submitted_one] ghost.handled == old(ghost.handled) + 1 ==> same(ghost.handled_req, request)
